@@ -60,6 +60,18 @@ Scenario* find_scenario(const std::string& id)
    return nullptr;
 }
 
+static std::vector<std::string> g_known_signatures;
+const std::vector<std::string>& known_signatures() { return g_known_signatures; }
+
+void breadcrumb(const char* text)
+{
+   // keep only the latest breadcrumb (stderr of a worker is a regular file; harmless elsewhere)
+   if (ftruncate(2, 0) == 0) lseek(2, 0, SEEK_SET);
+   char buf[256];
+   int n = std::snprintf(buf, sizeof buf, "BREADCRUMB: %s\n", text);
+   if (n > 0) (void) !write(2, buf, size_t(n < int(sizeof buf) ? n : int(sizeof buf) - 1));
+}
+
 namespace {
 
 using Clock = std::chrono::steady_clock;
@@ -229,6 +241,13 @@ std::string classify_crash(const std::string& prop, int status, const std::strin
       if (WIFSIGNALED(status)) kind = "signal:" + std::to_string(WTERMSIG(status));
       else if (WIFEXITED(status)) kind = "exit:" + std::to_string(WEXITSTATUS(status));
       else kind = "unknown";
+   }
+   // the last breadcrumb tells what the process was doing when it died
+   size_t bc = err.rfind("BREADCRUMB: ");
+   if (bc != std::string::npos) {
+      size_t e = err.find('\n', bc);
+      std::string what = err.substr(bc + 12, e == std::string::npos ? std::string::npos : e - bc - 12);
+      kind += "/" + what;
    }
    return prop + "/crash/" + kind;
 }
@@ -637,6 +656,7 @@ int cmd_check(const Options& o0, const char* argv0)
                sc.id(), sc.title(), o.tier ? "thorough" : "quick", (unsigned long long) o.seed, nprologue, nsearch, nworkers, budget);
    std::fflush(stdout);
 
+   for (auto& k : load_known(o.known_path)) if (k.status == "known" and k.property == sc.id()) g_known_signatures.push_back(k.signature);
    BatchStats bs = run_batch(sc, o, nprologue, total, nworkers, budget);
    const double batch_s = seconds_since(t0);
    Report rep;
@@ -667,6 +687,11 @@ int cmd_check(const Options& o0, const char* argv0)
    for (auto& c : bs.candidates) {
       auto it = by_class.find(c.verdict.cls);
       if (it == by_class.end() or c.index < it->second.index) by_class[c.verdict.cls] = c;
+   }
+   if (std::getenv("VERIF_LIST_CLASSES")) {
+      // exploratory mode: list every distinct violation class with the index of its first occurrence, no triage
+      for (auto& kv : by_class) std::printf("CLASS %s index=%zu detail=%s\n", kv.first.c_str(), kv.second.index, kv.second.verdict.detail.substr(0, 200).c_str());
+      return by_class.empty() ? 0 : 1;
    }
    mkdirs(o.replay_dir);
    size_t triaged = 0;
@@ -957,6 +982,18 @@ int main(int argc, char** argv)
    }
    if (cmd == "check" and not pos.empty()) { o.prop = pos[0]; return cmd_check(o, argv[0]); }
    if (cmd == "replay" and not pos.empty()) return cmd_replay(pos[0], verbose);
+   if (cmd == "dump" and pos.size() >= 2) {
+      // dump <ID> <index> [expected_class]: the replay file of one plan of the batch (prologue or seeded search)
+      o.prop = pos[0];
+      Scenario* sc = find_scenario(o.prop);
+      if (sc == nullptr) return 2;
+      const size_t np = sc->prologue_count(o.tier);
+      Plan p = plan_for(*sc, o, std::strtoull(pos[1].c_str(), nullptr, 10), np);
+      Verdict v;
+      v.cls = pos.size() > 2 ? pos[2] : "";
+      std::fputs(replay_json(p, v, 0, "").c_str(), stdout);
+      return 0;
+   }
    if (cmd == "determinism" and not pos.empty()) { o.prop = pos[0]; return cmd_determinism(o, n); }
    usage();
    return 2;
